@@ -10,7 +10,7 @@ def sections(text):
     out = []
     cur, buf = "title", []
     for ln in text.splitlines():
-        m = re.match(r"^#+\s*(.*)", ln) or re.match(r"^\*\*(.+?)[:.]?\*\*[:.]?\s*(.*)", ln)
+        m = re.match(r"^#+\s*(.*)", ln) or re.match(r"^\*\*(.+?)[:.]?\*\*[:.]?\s*(.*)", ln) or re.match(r"^((?:Site|Change|Part of the property broken|What is needed for it to manifest|What I ran|What was run|Which part[^:]*|Needs[^:]*))\s*:\s*(.*)", ln)
         if m:
             out.append((cur, "\n".join(buf).strip()))
             cur = m.group(1).strip()
